@@ -150,8 +150,20 @@ def zero_frame(g):
         fr = make_frame(g)
         ent = _FRAMES[key] = (fr, np.array(fr.fs), np.array(fr.ts), (fr.df, fr.dt, fr.fch1, fr.fchans, fr.tchans))
     fr = ent[0]
+    # Deterministic history: whatever this worker ran on the frame before, the frame has just seen one fixed
+    # full-band injection (all ones) and was zeroed again.  Anything a faulty implementation keeps between calls
+    # (a reused return buffer, a memo keyed too coarsely) is then in the same state in every process, so a
+    # history-dependent result reproduces when the case is re-executed alone.
+    try:
+        fr.add_signal(float(fr.fs[len(fr.fs) // 2]), 1.0, _ones_profile)
+    except Exception:
+        pass
     fr.data[:] = 0.0
     return fr
+
+
+def _ones_profile(f, f_center):
+    return np.ones(np.shape(f)) + 0.0 * np.asarray(f_center)
 
 
 def axes_intact(g):
